@@ -56,6 +56,9 @@ func funcsForProp(sp *Specs, prop string) []string {
 		if fs.Assumed || fs.Inline {
 			continue
 		}
+		if fs.Variant == "" && sp.Funcs[k+"@"+prop] != nil {
+			continue // a variant for this property replaces the base contract
+		}
 		for _, p := range fs.Props {
 			if p == prop {
 				out = append(out, k)
@@ -90,7 +93,7 @@ func verifyFunction(P *Program, key string, opts CheckOpts) *FuncResult {
 func generateFunction(P *Program, key string, opts CheckOpts) *FuncResult {
 	fr := &FuncResult{Key: key}
 	spec := P.Specs.Funcs[key]
-	fn := P.Funcs[key]
+	fn := P.Funcs[spec.Key]
 	if fn == nil {
 		fr.Err = "contract for a function that does not exist: " + key
 		return fr
